@@ -354,7 +354,10 @@ def b_frozenset(eng, st, args, kwargs, node):
     m = eng.method_models.get("frozenset()")
     if m:
         return m(eng, st, args, node)
-    raise Unsupported("frozenset()")
+    # no model in this unit: an immutable set the engine knows nothing about (its construction iterates the argument: weakest contract)
+    from .calls import opaque_call
+
+    return opaque_call(eng, st, "global:frozenset", args, kwargs)
 
 
 def b_object(eng, st, args, kwargs, node):
